@@ -878,12 +878,12 @@ class LazyStackedTensorDict(TensorDictBase):
             return self
         if is_nd_tensor:
             unbind_dim = self.stack_dim - num_single + num_none - num_squash
-            value_unbind = value.unbind(unbind_dim)
 
-            def set_at_str(converted_idx):
+            def set_at_str(converted_idx, value=value):
+                value_unbind = value.unbind(unbind_dim)
                 for i, item in enumerate(converted_idx):
                     if isinstance(item, list):
-                        set_at_str(item)
+                        set_at_str(item, value_unbind[i])
                     else:
                         _value = value_unbind[i]
                         stack_idx, idx = item
